@@ -1,3 +1,6 @@
 import IstioModel.C12.Driver
 def main (args : List String) : IO Unit :=
-  IstioModel.Wire.run ({ stream := args.headD "routes" } : IstioModel.C12.DState) IstioModel.C12.stepD
+  -- streams `known-<s>` hold the witnesses of known findings; they behave like stream <s>
+  let s := args.headD "routes"
+  let s := if s.startsWith "known-" then (s.drop 6).toString else s
+  IstioModel.Wire.run ({ stream := s } : IstioModel.C12.DState) IstioModel.C12.stepD
